@@ -13,7 +13,7 @@ constructor arguments.  For add-built circuits the model's own op-list specifica
 the theorems of Properties/C18.lean) is compared with the oracle as well.
 """
 from harness import dagutil as du
-from harness.common import Driver, Result
+from harness.common import Driver, Result, coverage_floor, impl_guard
 
 LEVEL = "proof"
 TRUSTED_BASE = [
@@ -339,13 +339,23 @@ def run(ctx):
             np_ = 1
         n_ops = rng.choice([0, 1, 2, 5, 10, 20, 30]) if k % 4 else rng.randrange(0, 45)
         toks = gen_ops(rng, ne, np_, nc, n_ops)
-        circ, errs = du.replay_edits(ne, np_, nc, ["A/" + t for t in toks])
+        circ, errs = None, ["?"]
+        with impl_guard(res, "build", input={"ne": ne, "np": np_, "nc": nc, "edits": ["A/" + t for t in toks]}):
+            circ, errs = du.replay_edits(ne, np_, nc, ["A/" + t for t in toks])
         if any(errs):
+            # the generated operations are valid uses of add() (none raises on the unchanged repository): a circuit that cannot be built
+            # used to be dropped silently; it is the implementation raising on a valid input (property C12 speaks of add, hence a break)
+            if circ is not None:
+                bad = next((e, t) for e, t in zip(errs, toks) if e)
+                res.count("errors", f"build:add:raises:{bad[0]}")
+                res.exact_break(f"build:add:raises:{bad[0]}", input={"ne": ne, "np": np_, "nc": nc, "edits": ["A/" + t for t in toks]},
+                                impl=f"add({bad[1]}) raised {bad[0]}", model="add accepts the operation")
             continue
         lines.append(f"dag.metrics ne={ne} np={np_} nc={nc} ops={du.emp(','.join(toks))}")
         cases.append((circ, {"ne": ne, "np": np_, "nc": nc, "edits": ["A/" + t for t in toks]}, toks))
         res.count("sizes", "ops<=5" if n_ops <= 5 else ("ops<=20" if n_ops <= 20 else "ops>20"))
     # the literal `_max_depth` recursion is exponential in the worst case: evaluate effective depth / register depth only when cheap
+    coverage_floor(res, "add-built circuits", len(cases), n_add, what="generated circuits (built without an error and evaluated)")
     cheap = [eff_cost_ok(c) and du.max_depth_cost(c, 6000) <= 6000 for c, _, _ in cases]
     res.extra["circuits_without_effective_depth"] = cheap.count(False)
     reps = drv.batch([ln + ("" if ok else " lite=1") for ln, ok in zip(lines, cheap)])
@@ -356,9 +366,13 @@ def run(ctx):
             continue
         spec = (f"depth.{rep['sdepth']}/emit.{rep['semit']}/cnot.{rep['scnot']}/unit.{rep['sunit']}/meas.{rep['smeas']}"
                 f"/med.{rep['smed']}/reset.{rep['sreset']}/eff.{rep['seff']}")
-        check_circuit(res, circ, rng, inp, rep["m"], spec)
-        # model register depth (literal recursion) and its spec
-        ref, regd = ref_metrics(circ)
+        g = impl_guard(res, "metrics", promise=True, input=inp)
+        with g:
+            check_circuit(res, circ, rng, inp, rep["m"], spec)
+            # model register depth (literal recursion) and its spec
+            ref, regd = ref_metrics(circ)
+        if g.raised is not None:
+            continue
         want = "/".join(du.dots(regd[t]) for t in "epc")
         if (cheap[i] and rep["regd"] != want) or rep["sregd"] != want:
             res.exact_break("metrics.register_depth", input=inp, impl=want, model=(rep["regd"], rep["sregd"]))
@@ -369,40 +383,11 @@ def run(ctx):
     # -- circuits reached by arbitrary edit histories
     for k in range(n_hist):
         init = (rng.randrange(1, 4), rng.randrange(0, 4), rng.randrange(0, 2))
-        circ = du.new_circuit(*init)
-        toks = []
-        for _ in range(rng.choice([5, 15, 40])):
-            ed = du.gen_edit(rng, circ, malformed=False, allow_measz=False, max_regs=8, label_pool=("mine", "tagA"))
-            toks.append(du.edit_token(ed))
-            if ed[0] == "C":
-                circ = circ.copy()
-            else:
-                du.apply_edit(circ, ed)
-            if rng.random() < 0.3:
-                # a depth query in the middle of the history: its answer is the definition on the circuit as it is now, whatever was
-                # asked before and however the circuit was edited since
-                toks.append("Q/d")
-                got = read_depths(circ)
-                res.count("branches", "history:query-between-edits")
-                if got is not None:
-                    regd_now = ref_metrics(circ)[1]
-                    res.evaluations += 1
-                    if got != regd_now:
-                        report(res, "metric:register_depth:wrong-value", f"register_depth = {got} in the middle of an edit history, ASAP layer of the last operation "
-                               f"per register = {regd_now}", {"ne": init[0], "np": init[1], "nc": init[2], "edits": list(toks)}, "register_depth")
-                        break
-        with_eff = eff_cost_ok(circ)
-        q = "m" if with_eff else "n"
-        mtoks = no_q(toks)
-        rep = drv.ask(f"dag.run ne={init[0]} np={init[1]} nc={init[2]} edits={du.emp(','.join(mtoks))} qs={','.join(['*'] * (len(mtoks) - 1) + [q])}")
-        inp = {"ne": init[0], "np": init[1], "nc": init[2], "edits": toks}
-        if rep["_status"] != "ok":
-            res.exact_break("dag.run:reply", input=inp, impl="ok", model=rep["_raw"][:200])
+        g = impl_guard(res, "history", promise=True, input={"ne": init[0], "np": init[1], "nc": init[2]})
+        with g:
+            circ = history_case(res, drv, rng, init)
+        if g.raised is not None:
             continue
-        model_m = rep["q"].split(",")[-1].split(":", 1)[1]
-        check_circuit(res, circ, rng, inp, model_m)
-        res.nontrivial(init, tuple(toks))
-        res.count("sizes", "history")
         if res.violations:
             break
     res.extra["driver_lines"] = drv.n_lines
@@ -410,6 +395,56 @@ def run(ctx):
         res.notes.append(f"model driver restarted {drv.restarts}x (request re-sent)")
     drv.close()
     return res
+
+
+def history_case(res, drv, rng, init):
+    """one circuit reached by an arbitrary edit history (with depth queries between the edits): definitions, model, error classes"""
+    circ = du.new_circuit(*init)
+    toks = []
+    errs = []
+    for _ in range(rng.choice([5, 15, 40])):
+        ed = du.gen_edit(rng, circ, malformed=False, allow_measz=False, max_regs=8, label_pool=("mine", "tagA"))
+        toks.append(du.edit_token(ed))
+        if ed[0] == "C":
+            circ = circ.copy()
+            errs.append("-")
+        else:
+            errs.append(du.apply_edit(circ, ed) or "-")
+        if rng.random() < 0.3:
+            # a depth query in the middle of the history: its answer is the definition on the circuit as it is now, whatever was
+            # asked before and however the circuit was edited since
+            toks.append("Q/d")
+            got = read_depths(circ)
+            res.count("branches", "history:query-between-edits")
+            if got is not None:
+                regd_now = ref_metrics(circ)[1]
+                res.evaluations += 1
+                if got != regd_now:
+                    report(res, "metric:register_depth:wrong-value", f"register_depth = {got} in the middle of an edit history, ASAP layer of the last operation "
+                           f"per register = {regd_now}", {"ne": init[0], "np": init[1], "nc": init[2], "edits": list(toks)}, "register_depth")
+                    break
+    if any(e != "-" for e in errs):
+        res.count("errors", "history:edit-raised")
+    with_eff = eff_cost_ok(circ)
+    q = "m" if with_eff else "n"
+    mtoks = no_q(toks)
+    rep = drv.ask(f"dag.run ne={init[0]} np={init[1]} nc={init[2]} edits={du.emp(','.join(mtoks))} qs={','.join(['*'] * (len(mtoks) - 1) + [q])}")
+    inp = {"ne": init[0], "np": init[1], "nc": init[2], "edits": toks}
+    if rep["_status"] != "ok":
+        res.exact_break("dag.run:reply", input=inp, impl="ok", model=rep["_raw"][:200])
+        return circ
+    # the return value of every edit used to be dropped: an edit that raises in the implementation but not in the model (or with
+    # another class) leaves two different circuits behind; it is reported as such, not only through the metrics that may differ
+    m_errs = [] if rep.get("errs", "*") == "*" else rep["errs"].split(",")
+    if m_errs != errs:
+        k = next((i for i, (a, b) in enumerate(zip(errs, m_errs)) if a != b), min(len(errs), len(m_errs)))
+        res.exact_break("dag.run:edit-error-class", input=inp, step=k, impl=errs[k] if k < len(errs) else None, model=m_errs[k] if k < len(m_errs) else None)
+        return circ
+    model_m = rep["q"].split(",")[-1].split(":", 1)[1]
+    check_circuit(res, circ, rng, inp, model_m)
+    res.nontrivial(init, tuple(toks))
+    res.count("sizes", "history")
+    return circ
 
 
 def search(ctx, res, proof_broken):
